@@ -54,13 +54,13 @@ func genC15() *rapid.Generator[c15Case] {
 			if i >= 2 && chance(t, "merge", 35) {
 				st = c15Step{Op: "merge"}
 				if chance(t, "failmerge", 50) {
-					st.FailKind = pick(t, "mfk", []string{"Write", "Close", "CloseAfter", "Update", "OpenFile", "Read", "Tombstone", "CreateFile", "CloseAfter"})
-					st.FailN = pick(t, "mfn", []int{0, 0, 1, 1, 2, 3, 5})
+					st.FailKind = pick(t, "mfk", []string{"CloseAfter", "CloseAfter", "CloseAfter", "Write", "Close", "Update", "OpenFile", "Read", "Tombstone", "CreateFile"})
+					st.FailN = pick(t, "mfn", []int{0, 0, 0, 1, 1, 2, 3, 5})
 				}
 			} else {
 				st = c15Step{Op: "ingest", Rows: rapid.IntRange(1, 4).Draw(t, "rows"), Parts: pick(t, "parts", []int{1, 1, 2, 3}), Group: pick(t, "group", []int{0, 0, 1, 2})}
-				if chance(t, "failflush", 25) {
-					st.FailKind = pick(t, "ffk", []string{"Write", "Close", "CloseAfter", "Update", "CreateFile", "Tombstone"})
+				if chance(t, "failflush", 35) {
+					st.FailKind = pick(t, "ffk", []string{"Write", "Close", "CloseAfter", "CloseAfter", "Update", "CreateFile", "Tombstone"})
 					st.FailN = rapid.IntRange(0, 2).Draw(t, "ffn")
 				}
 			}
@@ -574,5 +574,5 @@ func TestC15(t *testing.T) {
 	Ev.Level = "fault_enumeration"
 	Ev.Rule = "case = sequential history of 2-7 steps (ingest+flush of 1-4 rows over 1-3 partitions; Merge; each optionally with a one-shot store failure injected through the tracing wrapper so flushes and merges fail and abort) on a real temp directory with FileSystemDataStore as DataStore and MetaStore. The verif hook reports EVERY filesystem mutation (reserve, create-tmp, write, fsync, close, rename, dirsync, remove) before and after it happens; at every 'before' event the harness recovers (a) the crash image = the directory as it is, and (b) power-loss images = directory entries as of the last directory fsync + each ordered prefix of the directory operations pending since, with file bytes as of each inode's last fsync. Recovery = fresh FileSystemDataStore + engine, match-all query: Err nil (only complete readable files listed), every row acknowledged before the event present, no row never ingested, no row more than once. Images are de-duplicated by content. evaluations = histories; fs_events / images_recovered count the crash points and recoveries. Non-trivial: the history has events inside a publish (fsync/rename/dirsync) or an abort/tombstone/commit (remove); distinct by case."
 	Ev.Assumptions = []string{"the durability model is a model, not a filesystem: data is durable as of the inode's last fsync, directory entries as of the last directory fsync, pending directory operations persist in order (prefixes)", "granularity is the hook's events"}
-	runChecks(t, "crashpoints", 40, 600, genC15(), runC15)
+	runChecks(t, "crashpoints", 120, 1500, genC15(), runC15)
 }
